@@ -2,6 +2,7 @@ package main
 
 import (
 	"bytes"
+	"context"
 	"errors"
 	"fmt"
 	"io"
@@ -11,6 +12,7 @@ import (
 	"regexp"
 	"runtime"
 	"strings"
+	"syscall"
 
 	"github.com/osteele/liquid"
 	"github.com/osteele/liquid/expressions"
@@ -507,6 +509,9 @@ var errKinds = []error{
 	fmt.Errorf("verif-wrapping: %w", errors.New("verif-wrapped")),
 	&causeErr{"verif-annotated-without-cause", nil},
 	&causeErr{"verif-annotated", errors.New("verif-root-cause")},
+	// errors real writers fail with
+	io.ErrClosedPipe, syscall.EPIPE, &os.PathError{Op: "write", Path: "|1", Err: syscall.EPIPE}, fmt.Errorf("write tcp: %w", syscall.ECONNRESET),
+	io.ErrShortWrite, io.EOF, os.ErrClosed, context.Canceled, context.DeadlineExceeded, syscall.ENOSPC,
 }
 
 func sameErr(a, b error) bool {
